@@ -514,6 +514,31 @@ func TestProp_RoundTrip(t *testing.T) {
 							t.Fatalf("%s: clone read %#x at %d, want %#x", backend, b, pos, data[pos])
 						}
 					}
+					// the clone reads on like the original would: same byte order, its own position
+					cpos := pos + 1
+					for _, w := range []int64{2, 3, 4, 8} {
+						if cpos+w > total {
+							break
+						}
+						var got uint64
+						switch w {
+						case 2:
+							got = uint64(c.ReadUint16())
+						case 3:
+							got = uint64(c.ReadUint24())
+						case 4:
+							got = uint64(c.ReadUint32())
+						case 8:
+							got = c.ReadUint64()
+						}
+						if want := refDecode(data[cpos:cpos+w], little); got != want {
+							t.Fatalf("%s: clone read a %d-byte value at %d (little=%v) = %#x, want %#x", backend, w, cpos, little, got, want)
+						}
+						cpos += w
+						if c.Pos() != cpos || c.Err() != nil {
+							t.Fatalf("%s: clone Pos() = %d, Err() = %v after reading up to %d", backend, c.Pos(), c.Err(), cpos)
+						}
+					}
 					check("after reading from a clone")
 				}
 			}
